@@ -6,6 +6,17 @@ import ssl as _ssl
 from . import seams, refms
 
 
+class _Null:
+    def write(self, *a):
+        return 0
+
+    def flush(self):
+        pass
+
+
+_DEVNULL = _Null()
+
+
 class Outcome:
     __slots__ = ("kind", "value", "exc_type", "exc_msg", "errcode", "errmsg", "leftover")
 
@@ -100,8 +111,9 @@ class Session:
         ms.socket, ms.ssl = self._saved
 
     # operations ------------------------------------------------------------
-    def new_client(self):
-        self.client = self.ns.managesieve.Client("mail.example.org")
+    def new_client(self, debug=False):
+        self.client = self.ns.managesieve.Client("mail.example.org", debug=debug)
+        self.debug = debug
         return self.client
 
     def call(self, name, *args, **kw):
@@ -109,6 +121,10 @@ class Session:
         o = Outcome()
         c = self.client
         self._install()
+        import sys
+        saved_stdout = sys.stdout
+        if getattr(self, "debug", False):
+            sys.stdout = _DEVNULL
         try:
             with seams.watchdog():
                 o.value = getattr(c, name)(*args, **kw)
@@ -125,6 +141,7 @@ class Session:
             o.exc_msg = str(e)[:160]
         finally:
             self._restore()
+            sys.stdout = saved_stdout
         o.errcode = getattr(c, "errcode", None)
         o.errmsg = getattr(c, "errmsg", None)
         o.leftover = self.unread()
@@ -151,9 +168,9 @@ class Session:
         return out
 
 
-def open_session(server, starttls=False, authmech=None, login="user", password="pass", authz="", connect=True):
+def open_session(server, starttls=False, authmech=None, login="user", password="pass", authz="", connect=True, debug=False):
     s = Session(server)
-    s.new_client()
+    s.new_client(debug=debug)
     if connect:
         s.connect_outcome = s.call("connect", login, password, authz_id=authz, starttls=starttls, authmech=authmech)
     return s
